@@ -8,6 +8,18 @@ HERE = os.path.dirname(os.path.dirname(os.path.abspath(__file__)))
 
 # id -> (level, technique, level text, level note, design ref)
 CHECKS = {
+    "C01": (
+        "exploration",
+        "Hypothesis-generated structured requests x read segmentations x delays on virtual-time "
+        "asyncio and trio simulators; oracle = expectation computed from the request structure; "
+        "exhaustive two-way splits of template requests",
+        "Each generated request (HTTP/1.0/1.1 content-length/chunked, HTTP/2 DATA plans, bodies up "
+        "to 400 KB, queue sizes 1..10) is delivered through the real TCPServer of both workers "
+        "under arbitrary segmentation and timing; scope fields and body bytes must equal what was "
+        "sent, with exactly one final more_body=False iff the body was completed.",
+        "in-memory transport models (sim/) stand in for sockets; h2 library builds client frames",
+        "DESIGN.md §4 C01",
+    ),
     "C19": (
         "exploration",
         "Hypothesis property tests (loader agreement, CLI flag table, bind sockets, IMF-fixdate "
